@@ -311,10 +311,10 @@ fn bias_grid(number: u16) -> Grid<'static> {
 
 pub fn run(p: &Params) -> Outcome {
     let seed = p.seed;
-    let n_k = p.size(2_000, 300_000) as usize;
+    let n_k = p.size(40_000, 2_000_000) as usize;
     let scaled: Vec<usize> = FIELDS.iter().enumerate().filter(|(_, f)| f.is_float() && f.res.is_some()).map(|(i, _)| i).collect();
     let n_scaled = scaled.len();
-    let parts = if p.thorough { 16 } else { 1 };
+    let parts = if p.thorough { 16 } else { 4 };
     let njobs = (n_scaled + 3) * parts;
     let mut total = par::run_queue(p.workers, njobs, move |ji, ctx| {
         let fi = ji / parts;
